@@ -7,7 +7,7 @@ EXPLANATION = (
     "loop builds one problem per conjecture of lemma i from `axioms.clone()` + that conjecture, and the only statement that adds lemma i's "
     "consequences to `axioms` follows the inner loop inside the same outer iteration (cross-checked on the MIR: no path from the append back to a "
     "problem of the same iteration without passing the loop head); the final problem receives consequences only. TPL: inductive_lemma is evaluated "
-    "to terms: accepted shape forall V (N >= n -> F) with one guard, numeral bound, integer induction variable, V = free(F); base = "
+    "on concrete formulas (the accepted shape and one representative of every way to miss it): accepted shape forall V (N >= n -> F) with one guard, numeral bound, integer induction variable, V = free(F); base = "
     "closure(F[N:=n]); step = closure((N >= n and F) -> F[N:=N+1]); every other shape is an error. definition(): the seven refusals (duplicate "
     "variables, non-variable argument, variable list mismatch, taken predicate, free variables in the body, undefined body predicate, malformed) "
     "with their conditions. from_specification: every definition passes definition(taken), its predicate is inserted into taken before the next "
